@@ -71,9 +71,11 @@ def layer_harnesses() -> List[H]:
         for (l, off, pin) in lst:
             pn = "" if pin < 0 else f"_b{pin:02x}"
             ps = "" if pin < 0 else f", version/IHL byte = 0x{pin:02x} (concrete)"
+            # the largest IPv4 shapes (40 option bytes) take 5-15 min each: best effort, never required
+            big = lname == "ipv4" and (l - off) >= 58
             add(H(f"{prop.lower()}_{lname}_{fn}_l{l}_o{off}{pn}", prop, tier, f"{fn}::<{ty}, {l}>({off}, {pin})",
                   f"{lname}_{fn}", f"{l} buffer bytes ({8*l} bits) symbolic, header at offset {off}{ps}{extra_sym}",
-                  unwind_of(lname, l, off)))
+                  unwind_of(lname, l, off), required=not big, timeout=900 if big else 300))
 
     for lname, (ty, hsz, _u) in LAYERS.items():
         if lname == "ipv4":
